@@ -190,6 +190,31 @@ SCHEMA_D = {
     },
 }
 
+# -- M: field names that collide with methods of the parent container (default_resolver) ----------
+SCHEMA_M = {
+    "name": "M",
+    "query": "Query",
+    "mutation": None,
+    "subscription": None,
+    "types": {
+        "Query": {"kind": "object", "interfaces": [], "fields": {"bag": _f("Bag"), "bags": _f("[Bag]")}},
+        "Bag": {
+            "kind": "object",
+            "interfaces": [],
+            "fields": {
+                "items": _f("[Int]"),
+                "keys": _f("[String!]"),
+                "values": _f("Int"),
+                "get": _f("String"),
+                "copy": _f("Int"),
+                "update": _f("Boolean"),
+                "pop": _f("Float"),
+                "plain": _f("Int"),
+            },
+        },
+    },
+}
+
 
 def _merge(name, base, other, other_root_fields_into):
     import copy
@@ -209,7 +234,7 @@ SCHEMA_H = _merge("H", SCHEMA_C, SCHEMA_B, "Q")
 SCHEMA_H["types"]["Q"]["fields"]["n"] = _f("Int!")
 SCHEMA_H["types"]["Q"]["fields"]["li"] = _f("[Int!]!")
 
-SCHEMAS = {"A": SCHEMA_A, "B": SCHEMA_B, "C": SCHEMA_C, "H": SCHEMA_H, "D": SCHEMA_D}
+SCHEMAS = {"A": SCHEMA_A, "B": SCHEMA_B, "C": SCHEMA_C, "H": SCHEMA_H, "D": SCHEMA_D, "M": SCHEMA_M}
 
 
 # -- type expressions -------------------------------------------------------------------------
@@ -396,6 +421,14 @@ def _schema_w():
         types["WD%d" % i] = {"kind": "input", "fields": {"f": {"type": w_type(w, "Int"), "default": w_literal(w, "Int")}}}
         qfields["obj_a%d" % i] = _f("String", {"x": _a("W%d" % i)}, echo=True)
         qfields["obj_d%d" % i] = _f("String", {"x": _a("WD%d" % i)}, echo=True)
+        # the same with a default value on the ARGUMENT, and lists of those input objects
+        lit = "{f: %s}" % w_literal(w, "Int")
+        qfields["objx_a%d" % i] = _f("String", {"x": _a("W%d" % i, lit)}, echo=True)
+        qfields["objx_d%d" % i] = _f("String", {"x": _a("WD%d" % i, lit)}, echo=True)
+        qfields["lst_a%d" % i] = _f("String", {"x": _a("[W%d]" % i)}, echo=True)
+        qfields["lst_d%d" % i] = _f("String", {"x": _a("[WD%d]" % i)}, echo=True)
+        qfields["lstx_a%d" % i] = _f("String", {"x": _a("[W%d]" % i, "[%s]" % lit)}, echo=True)
+        qfields["lstx_d%d" % i] = _f("String", {"x": _a("[WD%d]" % i, "[%s]" % lit)}, echo=True)
     qfields["plain"] = _f("String")
     types_all = {"Query": {"kind": "object", "interfaces": [], "fields": qfields}}
     types_all.update(types)
